@@ -142,6 +142,32 @@ OPERATORS = [
      "a set-operation cursor clears every exception of a failed seek"),
     ("err-ignored", "break", ["C02"], I, r"    if \(len < 0\)\n        return NULL;\n\n    if \(PyIndex_Check", "    if (PyIndex_Check",
      "go on with a failed length"),
+    # ---- tree-level endpoint search, minKey / maxKey, delete tail ---------------------------
+    ("findend-reset", "break", ["C02"], T,
+     r"        if \(i\)\n        \{\n            deepest_smaller = self->data\[i-1\]\.child;\n            deepest_smaller_is_btree = pchild_is_btree;\n        \}\n",
+     "        deepest_smaller = i ? self->data[i-1].child : NULL;\n        deepest_smaller_is_btree = pchild_is_btree;\n",
+     "forget the left-move candidate when the descent takes child 0"),
+    ("findend-next-offset", "break", ["C02"], T, r"        \*bucket = next;\n        \*offset = 0;", "        *bucket = next;\n        *offset = 1;",
+     "low end moved to the next leaf starts at its second entry"),
+    ("findend-left-offset", "break", ["C02"], T, r"\*offset = pbucket->len - 1;", "*offset = pbucket->len;",
+     "high end moved left lands behind the last entry"),
+    ("py-minkey-gap", "break", ["C02"], PY,
+     r"                compare\(bucket\.maxKey\(\), min\) < 0\n", "                compare(bucket.maxKey(), min) <= 0\n",
+     "minKey moves to the next leaf although the bound is the leaf's last key"),
+    ("py-maxkey-left", "break", ["C02"], PY, r"        if index and compare\(data\[index\]\.child\.minKey\(\), max\) > 0:\n            index -= 1",
+     "        if index and compare(data[index].child.minKey(), max) > 0:\n            index -= 0",
+     "maxKey does not move to the left child"),
+    ("py-leaf-maxkey", "break", ["C02"], PY, r"                return self\._keys\[index - 1\]\n", "                return self._keys[index]\n",
+     "leaf maxKey answers with the next larger key"),
+    ("py-del-firstbucket", "break", ["C01", "C03"], PY,
+     r"            else:\n                self\._firstbucket = child\._firstbucket\n", "            elif child.size:\n                self._firstbucket = child._firstbucket\n",
+     "first leaf pointer not moved when the interior child 0 became empty"),
+    ("py-del-flag", "break", ["C01", "C03"], PY, r"                    self\._firstbucket = child\._next\n                    removed_first_bucket = True\n",
+     "                    self._firstbucket = child._next\n", "parent is not told that the first leaf went away"),
+    ("eq-err-swallow-demorgan", "equiv", ["C10"], S,
+     r"        if \(BTree_ShouldSuppressKeyError\(\)\) \{\n            PyErr_Clear\(\);\n        \}\n        else if \(PyErr_ExceptionMatches\(PyExc_TypeError\)\) \{\n[^\n]*\n            PyErr_Clear\(\);\n        \}\n        else \{\n            return NULL;\n        \}\n",
+     "        if (!BTree_ShouldSuppressKeyError() && !PyErr_ExceptionMatches(PyExc_TypeError))\n            return NULL;\n        PyErr_Clear();\n",
+     "class tests of discard() merged into one negated test with an early return"),
     ("eq-c-state-index", "equiv", ["C06"], B,
      r"        k = PyTuple_GET_ITEM\(items, l\);\n        l\+\+;\n        v = PyTuple_GET_ITEM\(items, l\);\n        l\+\+;\n",
      "        k = PyTuple_GET_ITEM(items, 2 * i);\n        v = PyTuple_GET_ITEM(items, 2 * i + 1);\n",
